@@ -132,7 +132,7 @@ func partCodec(c *vfw.Ctx) {
 		"(2) thinned data product: stream {0,1,127} x function {0,1,2,255} x W x 8 bodies (none, EmptyItem, A\"x\", nested list, 3-level tree, every leaf type, A[256], 70 KB binary) x 5 session ids x 5 system bytes, plus 4 errored bodies; " +
 		"(3) every re-stamp/derive chain of length <= 3 over 16 operations {WithSessionID x2, WithSystemBytes x2, WithID x2, Derive().Build(), Derive()+WithSessionID/WithSystemBytes/WithID/WithStream+WithFunction+WithWaitBit/WithItem/WithItem(nil) (header-only override)/WithItem then WithItem(nil)/builder reused for a second Build/WithFunction(even)+Build()} on 6 (thorough 7) data messages x {constructed, decoded, decoded-owned with the body decode still pending}, and every chain of length <= 3 over 4 re-stamp operations on 9 control messages x {constructed, decoded}; " +
 		"(4) full sweep: all 131072 (stream 0..255, function 0..255, W) triples x {3 bodies x 3 session ids x 3 system bytes (thorough: 5 x 5), + 1 errored body}. " +
-		"Oracle per case: construction succeeds iff stream<=127 && (!W || function odd) && body error-free; ToBytes()==e37.Frame(fields, e5.Encode(body)); all header accessors; DecodeHSMSMessage / DecodeHSMSPayload / DecodeOwnedHSMSPayload give the same header, an Equal body (DataMessage.Equal, secs2.Equal, reference values) and re-serialize to the same bytes; MarshalBinary/UnmarshalBinary round-trip; the buffer handed to a copying decode entry point (DecodeHSMSMessage, DecodeHSMSPayload, UnmarshalBinary) is overwritten before the decoded message is looked at; a re-stamp changes only the named header bytes and never an earlier holder. non-trivial = anything but the all-zero data message without body")
+		"Oracle per case: construction succeeds iff stream<=127 && (!W || function odd) && body error-free; ToBytes()==e37.Frame(fields, e5.Encode(body)); all header accessors; DecodeHSMSMessage / DecodeHSMSPayload / DecodeOwnedHSMSPayload give the same header, an Equal body (DataMessage.Equal, secs2.Equal, reference values) and re-serialize to the same bytes; MarshalBinary/UnmarshalBinary round-trip; ToBytes again after the caller overwrote the buffer the first ToBytes returned; the buffer handed to a copying decode entry point (DecodeHSMSMessage, DecodeHSMSPayload, UnmarshalBinary) is overwritten before the decoded message is looked at; a re-stamp changes only the named header bytes and never an earlier holder. non-trivial = anything but the all-zero data message without body")
 	n := 0
 	stop := false
 	run := func(r replayT) {
